@@ -852,29 +852,31 @@ theorem probingHandler_rerunsOk (s : State) (now j : Nat) (h : RerunsOk s) : Rer
 /-- an iteration without datagram and without command -/
 def idle (now j : Nat) : Input := { now := now, jitter := j }
 
+/-- the loop after the commands: re-runs, `probing_handler`, the interface-check timer -/
+def loopTail (s : State) (now j : Nat) : State × List Out :=
+  (runIpCheck (probingHandler (runReruns s now j).1 now j).1 now,
+   (runReruns s now j).2 ++ (probingHandler (runReruns s now j).1 now j).2)
+
+theorem runReruns_stopped (s0 : State) (now j : Nat) : (runReruns s0 now j).1.stopped = s0.stopped := by
+  unfold runReruns
+  refine foldl_inv (fun (a : State × List Out) => a.1.stopped = s0.stopped) (execRerun now j) _ (_, []) rfl ?_
+  intro a r _ ha
+  unfold execRerun
+  cases r with
+  | registerResend t f k =>
+    simp only []
+    unfold execRegisterResend
+    split
+    · simp only []
+      split <;> exact ha
+    · exact ha
+  | unregisterResend t p k v => exact ha
+
 theorem iter_idle (s : State) (now j : Nat) (h : s.stopped = false) :
-    iter s (idle now j) =
-      (runIpCheck (probingHandler (runReruns { s with timers := s.timers.filter (· > now) } now j).1 now j).1 now,
-       (runReruns { s with timers := s.timers.filter (· > now) } now j).2 ++
-       (probingHandler (runReruns { s with timers := s.timers.filter (· > now) } now j).1 now j).2) := by
+    iter s (idle now j) = loopTail { s with timers := s.timers.filter (· > now) } now j := by
   have h4 : (runReruns { s with timers := s.timers.filter (· > now) } now j).1.stopped = false := by
-    have : ∀ (s0 : State), (runReruns s0 now j).1.stopped = s0.stopped := by
-      intro s0
-      unfold runReruns
-      refine foldl_inv (fun (a : State × List Out) => a.1.stopped = s0.stopped) (execRerun now j) _ (_, []) rfl ?_
-      intro a r _ ha
-      unfold execRerun
-      cases r with
-      | registerResend t f k =>
-        simp only []
-        unfold execRegisterResend
-        split
-        · simp only []
-          split <;> exact ha
-        · exact ha
-      | unregisterResend t p k v => exact ha
-    rw [this]; exact h
-  unfold iter idle
+    rw [runReruns_stopped]; exact h
+  unfold iter idle loopTail
   simp [h]
 
 theorem runIpCheck_registries (s : State) (now : Nat) :
@@ -902,22 +904,22 @@ theorem Watch.weaken {s : State} {idx : Nat} {n : BList} {st nx : Nat} {R R' : L
 /-- did this iteration send a probe query for `n` on the interface? -/
 def asked (idx : Nat) (n : BList) (outs : List Out) : Bool := outs.any (asksFor idx n)
 
-/-- ONE idle iteration at `now`, while the probe does not end (`now < st + 750` or not yet due):
+/-- the tail of ONE iteration at `now` (after the commands), while the probe does not end (`now < st + 750` or not yet due):
     the probe query for `n` leaves on `i` - over every family of the interface, with `ANY n` among
     the questions and all of `R` among the authorities - exactly if `now ≥ nx`; then `nx` becomes
     `now + 250`; otherwise nothing about the probe changes. -/
-theorem iter_idle_step (s : State) (i : MyIntf) (l1 l2 : List MyIntf) (n : BList) (st nx : Nat) (R : List RR) (now j : Nat)
+theorem loopTail_step (s : State) (i : MyIntf) (l1 l2 : List MyIntf) (n : BList) (st nx : Nat) (R : List RR) (now j : Nat)
     (h : Good s i l1 l2 n st nx R) (hlive : now < nx ∨ now < st + 750) :
-    Good (iter s (idle now j)).1 i l1 l2 n st (if now ≥ nx then now + 250 else nx) R ∧
-    (now < nx → asked i.index n (iter s (idle now j)).2 = false) ∧
-    (now ≥ nx → ∀ v4, i.hasFamily v4 = true → ∃ pkt, Out.send i.index v4 none pkt ∈ (iter s (idle now j)).2 ∧
+    Good (loopTail s now j).1 i l1 l2 n st (if now ≥ nx then now + 250 else nx) R ∧
+    (now < nx → asked i.index n (loopTail s now j).2 = false) ∧
+    (now ≥ nx → ∀ v4, i.hasFamily v4 = true → ∃ pkt, Out.send i.index v4 none pkt ∈ (loopTail s now j).2 ∧
       pkt.flags = 0 ∧ (n, TYPE_ANY) ∈ pkt.questions ∧ ∀ a ∈ R, a ∈ pkt.authorities) := by
-  rw [iter_idle s now j h.running]
+  unfold loopTail
   -- after the re-runs
-  obtain ⟨hw4, ho4, hi4, hs4, hr4⟩ := runReruns_keeps { s with timers := s.timers.filter (· > now) } now j i.index n st nx R
-    (h.watch.congr rfl) h.reruns
+  obtain ⟨hw4, ho4, hi4, hs4, hr4⟩ := runReruns_keeps s now j i.index n st nx R
+    h.watch h.reruns
   obtain ⟨p, hp, hst, hnx, hrec⟩ := hw4.probe
-  have hintfs4 : IntfsOk (runReruns { s with timers := s.timers.filter (· > now) } now j).1 i l1 l2 :=
+  have hintfs4 : IntfsOk (runReruns s now j).1 i l1 l2 :=
     ⟨hi4.trans h.intfs.split, h.intfs.other⟩
   have hact : p.action now ≠ .expire := by
     unfold Probe.action
@@ -928,9 +930,9 @@ theorem iter_idle_step (s : State) (i : MyIntf) (l1 l2 : List MyIntf) (n : BList
       · simp
     · simp
   obtain ⟨hw5, hidle5, hsend5⟩ := probingHandler_probe _ now j i l1 l2 hintfs4 n p hp hw4.pn hw4.noRen hact
-  obtain ⟨hf5i, hf5s⟩ := probingHandler_frame (runReruns { s with timers := s.timers.filter (· > now) } now j).1 now j
+  obtain ⟨hf5i, hf5s⟩ := probingHandler_frame (runReruns s now j).1 now j
   obtain ⟨e1, e2, e3, e4⟩ := runIpCheck_registries
-    (probingHandler (runReruns { s with timers := s.timers.filter (· > now) } now j).1 now j).1 now
+    (probingHandler (runReruns s now j).1 now j).1 now
   have hnext : (if p.action now = .send then now + 250 else p.next) = (if now ≥ nx then now + 250 else nx) := by
     unfold Probe.action
     rw [hst, hnx]
@@ -963,17 +965,31 @@ theorem iter_idle_step (s : State) (i : MyIntf) (l1 l2 : List MyIntf) (n : BList
     obtain ⟨pkt, hm, hfl, hq, hauth⟩ := hsend5 hsend v4 hfam
     exact ⟨pkt, List.mem_append.mpr (Or.inr hm), hfl, hq, fun a ha => hauth a (hrec a ha)⟩
 
-/-- the idle iteration in which the probe ends (`now ≥ nx`, `now ≥ st + 750`): no probe query
-    for `n`, and every record of `R` filed under `n` is active afterwards -/
-theorem iter_idle_end (s : State) (i : MyIntf) (l1 l2 : List MyIntf) (n : BList) (st nx : Nat) (R : List RR) (now j : Nat)
-    (h : Good s i l1 l2 n st nx R) (h1 : now ≥ nx) (h2 : now ≥ st + 750) :
-    asked i.index n (iter s (idle now j)).2 = false ∧
-    ∀ a ∈ R, a.getName = n → ((iter s (idle now j)).1.registry i.index).isActive a = true := by
+/-- ONE idle iteration at `now`, while the probe does not end (`now < st + 750` or not yet due):
+    the probe query for `n` leaves on `i` - over every family of the interface, with `ANY n` among
+    the questions and all of `R` among the authorities - exactly if `now ≥ nx`; then `nx` becomes
+    `now + 250`; otherwise nothing about the probe changes. -/
+theorem iter_idle_step (s : State) (i : MyIntf) (l1 l2 : List MyIntf) (n : BList) (st nx : Nat) (R : List RR) (now j : Nat)
+    (h : Good s i l1 l2 n st nx R) (hlive : now < nx ∨ now < st + 750) :
+    Good (iter s (idle now j)).1 i l1 l2 n st (if now ≥ nx then now + 250 else nx) R ∧
+    (now < nx → asked i.index n (iter s (idle now j)).2 = false) ∧
+    (now ≥ nx → ∀ v4, i.hasFamily v4 = true → ∃ pkt, Out.send i.index v4 none pkt ∈ (iter s (idle now j)).2 ∧
+      pkt.flags = 0 ∧ (n, TYPE_ANY) ∈ pkt.questions ∧ ∀ a ∈ R, a ∈ pkt.authorities) := by
   rw [iter_idle s now j h.running]
-  obtain ⟨hw4, ho4, hi4, hs4, hr4⟩ := runReruns_keeps { s with timers := s.timers.filter (· > now) } now j i.index n st nx R
-    (h.watch.congr rfl) h.reruns
+  exact loopTail_step _ i l1 l2 n st nx R now j
+    ⟨h.running, ⟨h.intfs.split, h.intfs.other⟩, h.watch.congr rfl, h.reruns⟩ hlive
+
+/-- the tail of the iteration in which the probe ends (`now ≥ nx`, `now ≥ st + 750`): no probe query
+    for `n`, and every record of `R` filed under `n` is active afterwards -/
+theorem loopTail_end (s : State) (i : MyIntf) (l1 l2 : List MyIntf) (n : BList) (st nx : Nat) (R : List RR) (now j : Nat)
+    (h : Good s i l1 l2 n st nx R) (h1 : now ≥ nx) (h2 : now ≥ st + 750) :
+    asked i.index n (loopTail s now j).2 = false ∧
+    ∀ a ∈ R, a.getName = n → ((loopTail s now j).1.registry i.index).isActive a = true := by
+  unfold loopTail
+  obtain ⟨hw4, ho4, hi4, hs4, hr4⟩ := runReruns_keeps s now j i.index n st nx R
+    h.watch h.reruns
   obtain ⟨p, hp, hst, hnx, hrec⟩ := hw4.probe
-  have hintfs4 : IntfsOk (runReruns { s with timers := s.timers.filter (· > now) } now j).1 i l1 l2 :=
+  have hintfs4 : IntfsOk (runReruns s now j).1 i l1 l2 :=
     ⟨hi4.trans h.intfs.split, h.intfs.other⟩
   have hact : p.action now = .expire := by
     unfold Probe.action
@@ -981,13 +997,23 @@ theorem iter_idle_end (s : State) (i : MyIntf) (l1 l2 : List MyIntf) (n : BList)
     simp [h1, h2]
   obtain ⟨hact5, hout5⟩ := probingHandler_probe_end _ now j i l1 l2 hintfs4 n p hp hw4.pn hw4.noRen hact
   obtain ⟨e1, _, _, _⟩ := runIpCheck_registries
-    (probingHandler (runReruns { s with timers := s.timers.filter (· > now) } now j).1 now j).1 now
+    (probingHandler (runReruns s now j).1 now j).1 now
   constructor
   · simp only [asked, List.any_append, Bool.or_eq_false_iff, List.any_eq_false]
     exact ⟨fun o ho => by simp [ho4 o ho], fun o ho => by simp [hout5 o ho]⟩
   · intro a ha hname
     rw [registry_congr e1]
     exact hact5 a (hrec a ha) hname
+
+/-- the idle iteration in which the probe ends (`now ≥ nx`, `now ≥ st + 750`): no probe query
+    for `n`, and every record of `R` filed under `n` is active afterwards -/
+theorem iter_idle_end (s : State) (i : MyIntf) (l1 l2 : List MyIntf) (n : BList) (st nx : Nat) (R : List RR) (now j : Nat)
+    (h : Good s i l1 l2 n st nx R) (h1 : now ≥ nx) (h2 : now ≥ st + 750) :
+    asked i.index n (iter s (idle now j)).2 = false ∧
+    ∀ a ∈ R, a.getName = n → ((iter s (idle now j)).1.registry i.index).isActive a = true := by
+  rw [iter_idle s now j h.running]
+  exact loopTail_end _ i l1 l2 n st nx R now j
+    ⟨h.running, ⟨h.intfs.split, h.intfs.other⟩, h.watch.congr rfl, h.reruns⟩ h1 h2
 
 /-- a run of idle iterations at the given times: final state and (time, outputs) per iteration -/
 def idleRun (j : Nat) : State → List Nat → State × List (Nat × List Out)
@@ -1069,5 +1095,292 @@ theorem idleRun_final (j : Nat) (i : MyIntf) (l1 l2 : List MyIntf) (n : BList) (
   · rw [askTimes_append, ha1]
     simp [idleRun, askTimes, hno]
   · simpa [idleRun] using hact
+
+/-! ### a registration creates the probe -/
+
+theorem RR.matchesRR_trans {a b c : RR} (h1 : a.matchesRR b = true) (h2 : b.matchesRR c = true) : a.matchesRR c = true := by
+  simp only [RR.matchesRR, Bool.and_eq_true, beq_iff_eq] at *
+  obtain ⟨⟨⟨x1, x2⟩, x3⟩, x4⟩ := h1
+  obtain ⟨⟨⟨y1, y2⟩, y3⟩, y4⟩ := h2
+  exact ⟨⟨⟨x1.trans y1, x2.trans y2⟩, x3.trans y3⟩, x4.trans y4⟩
+
+/-- the registry after the two calls of `announce_service_on_intf` of a registration: a unique
+    record `a` that was not active sits (itself or a matching record) in the probe of its name;
+    if that name was not probed before, the probe is fresh at `now + jitter` -/
+theorem announce_pair_creates (svc : Service) (i : MyIntf) (r0 : Registry) (now j : Nat) (v4 : Bool) (a : RR) (n : BList)
+    (hprobe : svc.probe = true) (hne : addrsOn svc i v4 ≠ []) (ha : a ∈ uniqueRecords svc i r0 v4) (hname : a.getName = n)
+    (hinactive : r0.isActive a = false) (hfresh : alookup n r0.probing = none) :
+    ∃ p b, alookup n (prepareAnnounceReg svc i (prepareAnnounceReg svc i r0 true now j) false now j).probing = some p ∧
+      p.start = now + j ∧ p.next = now + j ∧ b ∈ p.records ∧ a.matchesRR b = true := by
+  have a1 := prepareAnnounceReg_active svc i r0 true now j
+  have a2 := prepareAnnounceReg_active svc i (prepareAnnounceReg svc i r0 true now j) false now j
+  -- times: whatever probe of `n` exists at the end is fresh
+  have htimes : ∀ p, alookup n (prepareAnnounceReg svc i (prepareAnnounceReg svc i r0 true now j) false now j).probing = some p →
+      p.start = now + j ∧ p.next = now + j := by
+    intro p hp
+    cases h1 : alookup n (prepareAnnounceReg svc i r0 true now j).probing with
+    | none => exact (prepareAnnounceReg_times svc i _ false now j n).1 h1 p hp
+    | some q =>
+      have hq := (prepareAnnounceReg_times svc i r0 true now j n).1 hfresh q h1
+      obtain ⟨p', hp', e1, e2⟩ := (prepareAnnounceReg_times svc i _ false now j n).2 q h1
+      rw [hp'] at hp
+      cases hp
+      exact ⟨e1.trans hq.1, e2.trans hq.2⟩
+  -- existence: by the family that lists `a`
+  have hex : ∃ p b, alookup n (prepareAnnounceReg svc i (prepareAnnounceReg svc i r0 true now j) false now j).probing = some p ∧
+      b ∈ p.records ∧ a.matchesRR b = true := by
+    cases v4 with
+    | true =>
+      rcases prepare_registers_all svc i r0 true now j hprobe hne a ha with hact | ⟨p, hp, hany, _⟩
+      · rw [isActive_congr a1.1] at hact
+        rw [hinactive] at hact; cases hact
+      · rw [hname] at hp
+        obtain ⟨p2, hp2, _, _, hsub⟩ := prepareAnnounceReg_keeps svc i _ false now j n p hp
+        obtain ⟨b, hb, hm⟩ := List.any_eq_true.mp hany
+        exact ⟨p2, b, hp2, hsub b hb, hm⟩
+    | false =>
+      have ha' : a ∈ uniqueRecords svc i (prepareAnnounceReg svc i r0 true now j) false := by
+        rw [uniqueRecords_congr a1.2]; exact ha
+      rcases prepare_registers_all svc i _ false now j hprobe hne a ha' with hact | ⟨p, hp, hany, _⟩
+      · rw [isActive_congr (a2.1.trans a1.1)] at hact
+        rw [hinactive] at hact; cases hact
+      · rw [hname] at hp
+        obtain ⟨b, hb, hm⟩ := List.any_eq_true.mp hany
+        exact ⟨p, b, hp, hb, hm⟩
+  obtain ⟨p, b, hp, hb, hm⟩ := hex
+  exact ⟨p, b, hp, (htimes p hp).1, (htimes p hp).2, hb, hm⟩
+
+/-- what `send_unsolicited_response` keeps of the service while it walks the interfaces -/
+structure SvcSame (u : Service) (svc : Service) : Prop where
+  uniq : ∀ i r v, uniqueRecords u i r v = uniqueRecords svc i r v
+  addrs : ∀ i v, addrsOn u i v = addrsOn svc i v
+  probe : u.probe = svc.probe
+  full : u.fullname = svc.fullname
+
+theorem SvcSame.setStatus {u svc : Service} (h : SvcSame u svc) (k : Nat) (st : Status) : SvcSame (u.setStatus k st) svc :=
+  ⟨fun i r v => h.uniq i r v, fun i v => h.addrs i v, h.probe, h.full⟩
+
+theorem unsolOnIntf_svcSame (now j : Nat) (u : Unsol) (i : MyIntf) (svc : Service) (h : SvcSame u.svc svc) :
+    SvcSame (unsolOnIntf now j u i).svc svc := by
+  unfold unsolOnIntf
+  simp only []
+  split <;> exact h.setStatus _ _
+
+theorem unsolOnIntf_registry_other (now j : Nat) (u : Unsol) (i : MyIntf) (idx : Nat) (h : i.index ≠ idx) :
+    (unsolOnIntf now j u i).state.registry idx = u.state.registry idx := by
+  unfold unsolOnIntf
+  simp only []
+  split
+  · exact registry_setRegistry_ne _ _ _ _ (Ne.symm h)
+  · exact (registry_congr (s := u.state.setRegistry i.index _) rfl idx).trans (registry_setRegistry_ne _ _ _ _ (Ne.symm h))
+
+theorem unsolOnIntf_frame (now j : Nat) (u : Unsol) (i : MyIntf) :
+    (unsolOnIntf now j u i).state.intfs = u.state.intfs ∧ (unsolOnIntf now j u i).state.stopped = u.state.stopped ∧
+    (unsolOnIntf now j u i).state.reruns = u.state.reruns ∧
+    (∀ o ∈ (unsolOnIntf now j u i).outs, o ∈ u.outs ∨ ∀ idx n, asksFor idx n o = false) := by
+  unfold unsolOnIntf
+  simp only []
+  split
+  · refine ⟨rfl, rfl, rfl, ?_⟩
+    intro o ho
+    simp only [List.mem_append] at ho
+    rcases ho with ho | ho
+    · exact Or.inl ho
+    · exact Or.inr (fun idx n => sendsOf_not_asks u.svc i _ _ idx n o ho)
+  · exact ⟨rfl, rfl, rfl, fun o ho => Or.inl ho⟩
+
+/-- the step of `send_unsolicited_response` on the watched interface creates the probe -/
+theorem unsolOnIntf_creates (now j : Nat) (u : Unsol) (i : MyIntf) (svc : Service) (v4 : Bool) (a : RR) (n : BList)
+    (hs : SvcSame u.svc svc) (hprobe : svc.probe = true) (hne : addrsOn svc i v4 ≠ [])
+    (ha : a ∈ uniqueRecords svc i (u.state.registry i.index) v4) (hname : a.getName = n)
+    (hinactive : (u.state.registry i.index).isActive a = false) (hfresh : alookup n (u.state.registry i.index).probing = none)
+    (hpn : KeysNodup (u.state.registry i.index).probing) (hnr : NoRen (u.state.registry i.index)) :
+    ∃ b, a.matchesRR b = true ∧ b.getName = n ∧ Watch (unsolOnIntf now j u i).state i.index n (now + j) (now + j) [b] := by
+  obtain ⟨p, b, hp, h1, h2, hb, hm⟩ := announce_pair_creates u.svc i (u.state.registry i.index) now j v4 a n
+    (hs.probe.trans hprobe) (by rw [hs.addrs]; exact hne) (by rw [hs.uniq]; exact ha) hname hinactive hfresh
+  have hpn2 := announce_pair_pn u.svc i hpn now j
+  have hnr2 := announce_pair_noRen u.svc i hnr now j
+  have hbname : b.getName = n := by
+    have hbnew : b.newName = none := hnr2.2 n p (alookup_mem hp) b hb
+    have hanew : a.newName = none := uniqueRecords_newName svc i _ v4 hnr.1 a ha
+    have hnm : a.name = b.name := by
+      simp only [RR.matchesRR, Bool.and_eq_true, beq_iff_eq] at hm
+      exact hm.1.1.1
+    rw [← hname]
+    simp [RR.getName, hbnew, hanew, hnm]
+  refine ⟨b, hm, hbname, ?_⟩
+  unfold unsolOnIntf
+  simp only []
+  split
+  · have e := registry_setRegistry_self u.state i.index
+      (prepareAnnounceReg u.svc i (prepareAnnounceReg u.svc i (u.state.registry i.index) true now j) false now j)
+    exact ⟨⟨p, by rw [e]; exact hp, h1, h2, fun x hx => by simp only [List.mem_cons, List.not_mem_nil, or_false] at hx; rw [hx]; exact hb⟩,
+      by rw [e]; exact hpn2, by rw [e]; exact hnr2⟩
+  · have e : ({ (u.state.setRegistry i.index
+        { (prepareAnnounceReg u.svc i (prepareAnnounceReg u.svc i (u.state.registry i.index) true now j) false now j) with
+          newTimers := [] }) with timers := u.state.timers ++
+        (prepareAnnounceReg u.svc i (prepareAnnounceReg u.svc i (u.state.registry i.index) true now j) false now j).newTimers } : State).registry i.index =
+        { (prepareAnnounceReg u.svc i (prepareAnnounceReg u.svc i (u.state.registry i.index) true now j) false now j) with
+          newTimers := [] } := registry_setRegistry_self _ _ _
+    exact ⟨⟨p, by rw [e]; exact hp, h1, h2, fun x hx => by simp only [List.mem_cons, List.not_mem_nil, or_false] at hx; rw [hx]; exact hb⟩,
+      by rw [e]; exact hpn2, by rw [e]; exact hnr2⟩
+
+theorem unsolOnIntf_other_keeps (now j : Nat) (u : Unsol) (i' : MyIntf) (idx : Nat) (n : BList) (st nx : Nat) (R : List RR)
+    (hne : i'.index ≠ idx) (h : Watch u.state idx n st nx R) : Watch (unsolOnIntf now j u i').state idx n st nx R :=
+  h.of_registry_eq (unsolOnIntf_registry_other now j u i' idx hne)
+
+/-- `send_unsolicited_response` of a registration: the probe of `n` on interface `i` is created
+    fresh at `now + jitter`, nothing else about the daemon that the schedule theorems need changes -/
+theorem sendUnsolicited_creates (s : State) (svc : Service) (now j : Nat) (i : MyIntf) (l1 l2 : List MyIntf)
+    (hi : IntfsOk s i l1 l2) (v4 : Bool) (a : RR) (n : BList)
+    (hprobe : svc.probe = true) (hne : addrsOn svc i v4 ≠ [])
+    (ha : a ∈ uniqueRecords svc i (s.registry i.index) v4) (hname : a.getName = n)
+    (hinactive : (s.registry i.index).isActive a = false) (hfresh : alookup n (s.registry i.index).probing = none)
+    (hpn : KeysNodup (s.registry i.index).probing) (hnr : NoRen (s.registry i.index)) (hok : RerunsOk s) :
+    ∃ b, a.matchesRR b = true ∧ b.getName = n ∧ Watch (sendUnsolicited s svc now j).state i.index n (now + j) (now + j) [b] ∧
+      (sendUnsolicited s svc now j).state.intfs = s.intfs ∧ (sendUnsolicited s svc now j).state.stopped = s.stopped ∧
+      RerunsOk (sendUnsolicited s svc now j).state ∧
+      (∀ o ∈ (sendUnsolicited s svc now j).outs, ∀ idx n', asksFor idx n' o = false) := by
+  -- the fold over the interfaces, in three phases
+  have hsame0 : SvcSame svc svc := ⟨fun _ _ _ => rfl, fun _ _ => rfl, rfl, rfl⟩
+  have frame : ∀ (l : List MyIntf) (u0 : Unsol),
+      (l.foldl (unsolOnIntf now j) u0).state.intfs = u0.state.intfs ∧ (l.foldl (unsolOnIntf now j) u0).state.stopped = u0.state.stopped ∧
+      (l.foldl (unsolOnIntf now j) u0).state.reruns = u0.state.reruns ∧
+      (SvcSame u0.svc svc → SvcSame (l.foldl (unsolOnIntf now j) u0).svc svc) ∧
+      ((∀ o ∈ u0.outs, ∀ idx n', asksFor idx n' o = false) →
+        ∀ o ∈ (l.foldl (unsolOnIntf now j) u0).outs, ∀ idx n', asksFor idx n' o = false) := by
+    intro l u0
+    refine foldl_inv (fun (u : Unsol) => u.state.intfs = u0.state.intfs ∧ u.state.stopped = u0.state.stopped ∧
+      u.state.reruns = u0.state.reruns ∧ (SvcSame u0.svc svc → SvcSame u.svc svc) ∧
+      ((∀ o ∈ u0.outs, ∀ idx n', asksFor idx n' o = false) → ∀ o ∈ u.outs, ∀ idx n', asksFor idx n' o = false))
+      (unsolOnIntf now j) l u0 ⟨rfl, rfl, rfl, id, id⟩ ?_
+    intro u i' _ hu
+    obtain ⟨f1, f2, f3, f4⟩ := unsolOnIntf_frame now j u i'
+    exact ⟨f1.trans hu.1, f2.trans hu.2.1, f3.trans hu.2.2.1, fun h => unsolOnIntf_svcSame now j u i' svc (hu.2.2.2.1 h),
+      fun h o ho => (f4 o ho).elim (hu.2.2.2.2 h o) id⟩
+  have regother : ∀ (l : List MyIntf) (u0 : Unsol), (∀ i' ∈ l, i'.index ≠ i.index) →
+      (l.foldl (unsolOnIntf now j) u0).state.registry i.index = u0.state.registry i.index := by
+    intro l u0 hl
+    exact foldl_inv (fun (u : Unsol) => u.state.registry i.index = u0.state.registry i.index) (unsolOnIntf now j) l u0 rfl
+      (fun u i' hi' hu => (unsolOnIntf_registry_other now j u i' i.index (hl i' hi')).trans hu)
+  have ho1 : ∀ i' ∈ l1, i'.index ≠ i.index := fun i' h => hi.other i' (List.mem_append.mpr (Or.inl h))
+  have ho2 : ∀ i' ∈ l2, i'.index ≠ i.index := fun i' h => hi.other i' (List.mem_append.mpr (Or.inr h))
+  -- phase 1
+  have r1 := regother l1 { state := s, svc := svc } ho1
+  obtain ⟨f1i, f1s, f1r, f1same, f1out⟩ := frame l1 { state := s, svc := svc }
+  -- phase 2
+  obtain ⟨b, hm, hbn, hw2⟩ := unsolOnIntf_creates now j (l1.foldl (unsolOnIntf now j) { state := s, svc := svc }) i svc v4 a n
+    (f1same hsame0) hprobe hne (by rw [r1]; exact ha) hname (by rw [r1]; exact hinactive) (by rw [r1]; exact hfresh)
+    (by rw [r1]; exact hpn) (by rw [r1]; exact hnr)
+  obtain ⟨f2i, f2s, f2r, f2out⟩ := unsolOnIntf_frame now j (l1.foldl (unsolOnIntf now j) { state := s, svc := svc }) i
+  -- phase 3
+  have r3 := regother l2 (unsolOnIntf now j (l1.foldl (unsolOnIntf now j) { state := s, svc := svc }) i) ho2
+  obtain ⟨f3i, f3s, f3r, _, f3out⟩ := frame l2 (unsolOnIntf now j (l1.foldl (unsolOnIntf now j) { state := s, svc := svc }) i)
+  have hfold : s.intfs.foldl (unsolOnIntf now j) { state := s, svc := svc } =
+      l2.foldl (unsolOnIntf now j) (unsolOnIntf now j (l1.foldl (unsolOnIntf now j) { state := s, svc := svc }) i) := by
+    rw [hi.split, List.foldl_append, List.foldl_cons]
+  refine ⟨b, hm, hbn, ?_⟩
+  unfold sendUnsolicited
+  simp only [hfold]
+  refine ⟨?_, f3i.trans (f2i.trans f1i), f3s.trans (f2s.trans f1s), ?_, ?_⟩
+  · exact (hw2.of_registry_eq r3).congr rfl
+  · intro t pk k v hmem
+    simp only [List.mem_append, List.mem_map] at hmem
+    rcases hmem with hmem | ⟨_, _, hmem⟩
+    · rw [f3r, f2r, f1r] at hmem
+      exact hok t pk k v hmem
+    · cases hmem
+  · exact f3out (fun o ho => (f2out o ho).elim (f1out (fun _ h => by simp at h) o) id)
+
+theorem registerService_stopped (s : State) (svc : Service) (now j : Nat) :
+    (registerService s svc now j).1.stopped = s.stopped := by
+  unfold registerService
+  split
+  · unfold registerChecked sendUnsolicited
+    simp only []
+    have : ∀ (l : List MyIntf) (u0 : Unsol), (l.foldl (unsolOnIntf now j) u0).state.stopped = u0.state.stopped :=
+      fun l u0 => foldl_inv (fun (u : Unsol) => u.state.stopped = u0.state.stopped) _ l u0 rfl
+        (fun u i' _ hu => (unsolOnIntf_frame now j u i').2.1.trans hu)
+    exact this _ _
+  · rfl
+
+/-- the iteration that processes `register(svc)` (and nothing else) -/
+theorem iter_register (s : State) (svc : Service) (now j : Nat) (h : s.stopped = false) :
+    iter s { now := now, jitter := j, cmds := [.register svc] } =
+      ((loopTail (registerService { s with timers := s.timers.filter (· > now) } svc now j).1 now j).1,
+       (registerService { s with timers := s.timers.filter (· > now) } svc now j).2 ++
+       (loopTail (registerService { s with timers := s.timers.filter (· > now) } svc now j).1 now j).2) := by
+  unfold iter loopTail
+  simp [h, execCommand, registerService_stopped, List.append_assoc]
+
+theorem registerService_eq (s : State) (svc : Service) (now j : Nat)
+    (hlen : Names.checkServiceNameLength svc.ty s.nameLenMax = .ok ()) (hauto : svc.addrAuto = false) :
+    registerService s svc now j = registerChecked s svc now j := by
+  unfold registerService
+  simp [hlen, autoAddrs, hauto]
+
+/-- REGISTRATION STARTS THE PROBE.  A daemon in any running state processes `register(svc)` at
+    `now` under jitter `j` (no datagram, no other command in that iteration).  For a unique
+    record `a` of the service on interface `i` (SRV, TXT or an in-subnet address) that this
+    daemon does not hold yet (not active, its name `n` not being probed): afterwards the probe of
+    `n` on `i` exists with start `now + j`, containing `a` or a matching record `b`; the first
+    probe query has gone out in this very iteration iff `j = 0` (then the next one is due at
+    `now + 250`), otherwise nothing was asked and the first query is due at `now + j`. -/
+theorem registration_creates_probe (s : State) (i : MyIntf) (l1 l2 : List MyIntf) (svc : Service) (now j : Nat)
+    (v4 : Bool) (a : RR) (n : BList)
+    (hrun : s.stopped = false) (hi : IntfsOk s i l1 l2) (hok : RerunsOk s)
+    (hpn : KeysNodup (s.registry i.index).probing) (hnr : NoRen (s.registry i.index))
+    (hlen : Names.checkServiceNameLength svc.ty s.nameLenMax = .ok ()) (hauto : svc.addrAuto = false)
+    (hprobe : svc.probe = true) (hne : addrsOn svc i v4 ≠ [])
+    (ha : a ∈ uniqueRecords svc i (s.registry i.index) v4) (hname : a.getName = n)
+    (hinactive : (s.registry i.index).isActive a = false) (hfresh : alookup n (s.registry i.index).probing = none) :
+    ∃ b, a.matchesRR b = true ∧ b.getName = n ∧
+      Good (iter s { now := now, jitter := j, cmds := [.register svc] }).1 i l1 l2 n (now + j)
+        (if j = 0 then now + 250 else now + j) [b] ∧
+      (j ≠ 0 → asked i.index n (iter s { now := now, jitter := j, cmds := [.register svc] }).2 = false) ∧
+      (j = 0 → ∀ v4', i.hasFamily v4' = true →
+        ∃ pkt, Out.send i.index v4' none pkt ∈ (iter s { now := now, jitter := j, cmds := [.register svc] }).2 ∧
+          pkt.flags = 0 ∧ (n, TYPE_ANY) ∈ pkt.questions ∧ b ∈ pkt.authorities) := by
+  rw [iter_register s svc now j hrun,
+    registerService_eq { s with timers := s.timers.filter (· > now) } svc now j hlen hauto]
+  obtain ⟨b, hm, hbn, hw, hintfs, hstop, hrer, houts⟩ := sendUnsolicited_creates
+    { s with timers := s.timers.filter (· > now) } svc now j i l1 l2 ⟨hi.split, hi.other⟩ v4 a n hprobe hne ha hname hinactive hfresh
+    hpn hnr hok
+  have hgood : Good (registerChecked { s with timers := s.timers.filter (· > now) } svc now j).1 i l1 l2 n (now + j) (now + j) [b] := by
+    unfold registerChecked
+    exact ⟨hstop.trans hrun, ⟨hintfs.trans hi.split, hi.other⟩, hw.congr rfl, hrer⟩
+  have houts3 : ∀ o ∈ (registerChecked { s with timers := s.timers.filter (· > now) } svc now j).2, asksFor i.index n o = false := by
+    unfold registerChecked
+    intro o ho
+    simp only [List.mem_append] at ho
+    rcases ho with ho | ho
+    · exact houts o ho i.index n
+    · split at ho
+      · simp at ho
+      · exact notify_not_asks _ _ i.index n o ho
+  obtain ⟨hg, hno, hsend⟩ := loopTail_step _ i l1 l2 n (now + j) (now + j) [b] now j hgood (Or.inr (by omega))
+  have hnx : (if now ≥ now + j then now + 250 else now + j) = (if j = 0 then now + 250 else now + j) := by
+    by_cases hj : j = 0
+    · subst hj; simp
+    · have : ¬ now ≥ now + j := by omega
+      simp [this, hj]
+  refine ⟨b, hm, hbn, hnx ▸ hg, ?_, ?_⟩
+  · intro hj
+    have := hno (by omega)
+    simp only [asked, List.any_append, Bool.or_eq_false_iff, List.any_eq_false] at this ⊢
+    exact ⟨fun o ho => by simp [houts3 o ho], this⟩
+  · intro hj v4' hfam
+    subst hj
+    obtain ⟨pkt, hmem, hfl, hq, hauth⟩ := hsend (by omega) v4' hfam
+    exact ⟨pkt, List.mem_append.mpr (Or.inr hmem), hfl, hq, hauth b (by simp)⟩
+
+/-- a record is active if a matching record filed under the same name is -/
+theorem isActive_of_matches (r : Registry) (a b : RR) (hm : a.matchesRR b = true) (hn : a.getName = b.getName)
+    (h : r.isActive b = true) : r.isActive a = true := by
+  unfold Registry.isActive at *
+  rw [hn]
+  simp only [List.any_eq_true] at h ⊢
+  obtain ⟨c, hc, hbc⟩ := h
+  exact ⟨c, hc, RR.matchesRR_trans hm hbc⟩
 
 end Mdns.Responder
